@@ -256,6 +256,25 @@ def _is_pure_expr(e: ast.AST) -> bool:
     return True
 
 
+def _is_effect_free_expr(e: ast.AST) -> bool:
+    """Every call in e is to a side-effect free builtin, a numpy/math function, or a function/method of the
+    repository that modifies none of its arguments (MUTATORS summary)."""
+    for n in ast.walk(e):
+        if isinstance(n, ast.Call):
+            if _is_pure_call(n):
+                continue
+            f = n.func
+            if isinstance(f, ast.Attribute) and _base_name(f.value) in LIB_MODULES and f.attr not in ('append', 'insert', 'delete', 'sort'):
+                continue
+            nm = f.id if isinstance(f, ast.Name) else f.attr if isinstance(f, ast.Attribute) else None
+            if nm in KNOWN_FUNCS and not MUTATORS.get(nm) and nm not in MUTATING_METHODS:
+                continue
+            return False
+        elif isinstance(n, (ast.Lambda, ast.Await, ast.Yield, ast.YieldFrom, ast.NamedExpr)):
+            return False
+    return True
+
+
 def _size(e: ast.AST) -> int:
     return sum(1 for _ in ast.walk(e))
 
@@ -964,6 +983,7 @@ class _DefInliner:
         self.free = _names_loaded(E)
         self.len_only = _len_only_names(E)
         self.pure = _is_pure_expr(E)
+        self.effect_free = _is_effect_free_expr(E)
         self.sites: List[ast.AST] = []      # statements (or their expression fields) where v gets replaced
 
     def _kills(self, node: ast.AST) -> bool:
@@ -1009,6 +1029,12 @@ class _DefInliner:
         while k < len(block) and _count_loads(block[k], v) == 0:
             s = block[k]
             if _is_import_try(s) and not mutated_names(s) & (self.free | {v}):
+                k += 1
+                continue
+            if self.effect_free and not mutated_names(s) & (self.free | {v}) and not any(
+                    isinstance(n, (ast.Return, ast.Raise, ast.Break, ast.Continue, ast.FunctionDef, ast.Lambda, ast.Yield))
+                    for n in ast.walk(s)):
+                # E only calls functions that modify nothing: evaluating it after an unrelated statement is the same
                 k += 1
                 continue
             if not (isinstance(s, ast.Assign) and len(s.targets) == 1 and isinstance(s.targets[0], ast.Name)
@@ -1156,7 +1182,11 @@ def _inline_temps(fn: ast.FunctionDef) -> bool:
             excluded |= {m.id for m in ast.walk(n) if isinstance(m, ast.Name)}
 
     # objects that are modified in place (element / attribute stores, mutating calls) keep their name: replacing
-    # the name by its defining expression would re-evaluate that expression and store into a temporary
+    # the name by its defining expression would re-evaluate that expression and store into a temporary.  (A
+    # temporary that is used exactly once, as an operand or argument, is still replaceable: the expression is
+    # evaluated once either way and yields the same object.)
+    modified: Set[str] = set()
+    _excluded_before = set(excluded)
     for n in ast.walk(fn):
         tg = []
         if isinstance(n, ast.Assign):
@@ -1172,7 +1202,9 @@ def _inline_temps(fn: ast.FunctionDef) -> bool:
                 if isinstance(e, (ast.Subscript, ast.Attribute)) and _base_name(e):
                     excluded.add(_base_name(e))
         if isinstance(n, ast.Call):
-            _call_kills(n, excluded)
+            _call_kills(n, modified)
+    store_bases = excluded - _excluded_before
+    modified -= excluded
 
     changed = False
 
@@ -1185,7 +1217,7 @@ def _inline_temps(fn: ast.FunctionDef) -> bool:
                     and s.targets[0].id not in excluded and not s.targets[0].id.startswith('N_'):
                 v = s.targets[0].id
                 inl = _DefInliner(v, s.value)
-                if inl.check(block, k, cont):
+                if inl.check(block, k, cont) and (v not in modified or inl.total == 1):
                     inl.apply()
                     del block[k]
                     if not block:
@@ -1261,6 +1293,14 @@ def _find_movable(blocks: List[List[ast.stmt]], from_end: bool, barrier_reads: S
     return None
 
 
+def _branch_motion_elif(node: ast.If):
+    node.body[:] = _branch_motion(node.body)
+    if len(node.orelse) == 1 and isinstance(node.orelse[0], ast.If):
+        _branch_motion_elif(node.orelse[0])
+    else:
+        node.orelse[:] = _branch_motion(node.orelse)
+
+
 def _branch_motion(block: List[ast.stmt]) -> List[ast.stmt]:
     out: List[ast.stmt] = []
     for st in block:
@@ -1268,6 +1308,10 @@ def _branch_motion(block: List[ast.stmt]) -> List[ast.stmt]:
             out.append(st)
             continue
         for b in _blocks_of(st):
+            if isinstance(st, ast.If) and b is st.orelse and len(b) == 1 and isinstance(b[0], ast.If):
+                # else-if: the nested `if` is an arm of this chain, only its own blocks are visited here
+                _branch_motion_elif(b[0])
+                continue
             b[:] = _branch_motion(b)
         if isinstance(st, ast.Try) and not st.finalbody and not st.orelse and st.handlers \
                 and all(_import_error_only(h) for h in st.handlers):
@@ -1285,35 +1329,43 @@ def _branch_motion(block: List[ast.stmt]) -> List[ast.stmt]:
             out.extend(post)
             continue
         if isinstance(st, ast.If) and st.orelse:
+            # the arms of the whole if / elif / else chain: a statement moves only if it is common to all of them,
+            # so that the chain keeps its shape
             pre: List[ast.stmt] = []
             post: List[ast.stmt] = []
             test_reads = {n.id for n in ast.walk(st.test) if isinstance(n, ast.Name)}
-            # else-if chains: the inner tests are evaluated after the moved statement as well
-            inner = st.orelse
-            while len(inner) == 1 and isinstance(inner[0], ast.If):
-                test_reads |= {n.id for n in ast.walk(inner[0].test) if isinstance(n, ast.Name)}
-                inner = inner[0].orelse
-            blocks = [st.body, st.orelse]
-            while st.body and st.orelse:
-                pos = _find_movable(blocks, False, test_reads)
+            arms = [st.body]
+            inner = st
+            while len(inner.orelse) == 1 and isinstance(inner.orelse[0], ast.If) and inner.orelse[0].orelse:
+                inner = inner.orelse[0]
+                test_reads |= {n.id for n in ast.walk(inner.test) if isinstance(n, ast.Name)}
+                arms.append(inner.body)
+            if len(inner.orelse) == 1 and isinstance(inner.orelse[0], ast.If):
+                # chain without a final else: on the path where no test holds nothing is executed
+                out.append(st)
+                continue
+            arms.append(inner.orelse)
+            while all(arms):
+                pos = _find_movable(arms, False, test_reads)
                 if pos is None:
                     break
-                pre.append(st.body[pos[0]])
-                for b, p in zip(blocks, pos):
-                    del b[p]
+                pre.append(arms[0][pos[0]])
+                for b_, p_ in zip(arms, pos):
+                    del b_[p_]
                 _invalidate()
-            while st.body and st.orelse:
-                pos = _find_movable(blocks, True, set())
+            while all(arms):
+                pos = _find_movable(arms, True, set())
                 if pos is None:
                     break
-                post.insert(0, st.body[pos[0]])
-                for b, p in zip(blocks, pos):
-                    del b[p]
+                post.insert(0, arms[0][pos[0]])
+                for b_, p_ in zip(arms, pos):
+                    del b_[p_]
                 _invalidate()
             out.extend(pre)
-            if st.body or st.orelse:
-                if not st.body:
-                    st.body = [_fix(ast.Pass(), st)]
+            if any(arms):
+                for b_ in arms:
+                    if not b_:
+                        b_.append(_fix(ast.Pass(), st))
                 out.append(st)
             out.extend(post)
         else:
